@@ -69,6 +69,8 @@ pub enum Call {
     /// 4 union with a digraph of another order
     Op(u8),
     Filter(Vec<usize>),
+    /// filter_vertices with a predicate that panics at its n-th invocation
+    FilterPanic(Vec<usize>, usize),
     /// convert into representation 0..6 and back where possible
     Convert(u8),
     FromRows(u8, Vec<Vec<usize>>),
@@ -318,16 +320,39 @@ where
     n
 }
 
+/// Consumers 6..9 (besides the plain ones): 6 clone the iterator, drop the
+/// original, consume the clone; 7 the same after two steps; 8 a target
+/// predicate that panics when it sees a target (unwinds through graaf).
+fn via_clone<I: Iterator + Clone>(mut it: I, consumer: u8) -> u64
+where
+    I::Item: std::fmt::Debug,
+{
+    if consumer % 9 == 7 {
+        let _ = it.next();
+        let _ = it.next();
+    }
+    let c = it.clone();
+    drop(it);
+    eat(c)
+}
+
 fn traverse<D>(g: &D, algo: u8, sources: &[usize], consumer: u8, targets: &[usize], steps: u8) -> u64
 where
-    D: Order + OutNeighbors,
+    D: Order + OutNeighbors + Clone,
 {
     let src = || sources.iter().copied();
     let is_t = |v: usize| targets.contains(&v);
+    let boom = |v: usize| {
+        assert!(!targets.contains(&v), "target predicate panics on purpose");
+        false
+    };
+    let cl = matches!(consumer % 9, 6 | 7);
     match algo % 9 {
         0 => {
             let mut it = Bfs::new(g, src());
-            if consumer % 6 == 5 {
+            if cl {
+                via_clone(it, consumer)
+            } else if consumer % 9 == 5 {
                 (0..steps).map(|_| it.next().map_or(0, |v| v as u64 + 1)).sum()
             } else {
                 eat(it)
@@ -335,7 +360,8 @@ where
         }
         1 => {
             let mut it = BfsDist::new(g, src());
-            match consumer % 6 {
+            match consumer % 9 {
+                6 | 7 => via_clone(it, consumer),
                 1 => eat(it.distances().into_iter()),
                 5 => (0..steps).map(|_| it.next().map_or(0, |v| v.0 as u64 + 1)).sum(),
                 _ => eat(it),
@@ -343,7 +369,9 @@ where
         }
         2 => {
             let mut it = BfsPred::new(g, src());
-            match consumer % 6 {
+            match consumer % 9 {
+                6 | 7 => via_clone(it, consumer),
+                8 => eat(it.shortest_path(boom).into_iter()),
                 2 => eat(it.predecessors().into_iter()),
                 3 => eat(it.shortest_path(is_t).into_iter()),
                 4 => eat(it.cycles().into_iter()),
@@ -353,7 +381,9 @@ where
         }
         3 => {
             let mut it = Dfs::new(g, src());
-            if consumer % 6 == 5 {
+            if cl {
+                via_clone(it, consumer)
+            } else if consumer % 9 == 5 {
                 (0..steps).map(|_| it.next().map_or(0, |v| v as u64 + 1)).sum()
             } else {
                 eat(it)
@@ -361,7 +391,9 @@ where
         }
         4 => {
             let mut it = DfsDist::new(g, src());
-            if consumer % 6 == 5 {
+            if cl {
+                via_clone(it, consumer)
+            } else if consumer % 9 == 5 {
                 (0..steps).map(|_| it.next().map_or(0, |v| v.0 as u64 + 1)).sum()
             } else {
                 eat(it)
@@ -369,7 +401,8 @@ where
         }
         _ => {
             let mut it = DfsPred::new(g, src());
-            match consumer % 6 {
+            match consumer % 9 {
+                6 | 7 => via_clone(it, consumer),
                 2 => eat(it.predecessors().into_iter()),
                 5 => (0..steps).map(|_| it.next().map_or(0, |v| v.1 as u64 + 1)).sum(),
                 _ => eat(it),
@@ -381,18 +414,23 @@ where
 fn dijkstra(g: &AdjacencyListWeighted<usize>, algo: u8, sources: &[usize], consumer: u8, targets: &[usize], steps: u8) -> u64 {
     let src = || sources.iter().copied();
     let is_t = |v: usize| targets.contains(&v);
+    let boom = |v: usize| {
+        assert!(!targets.contains(&v), "target predicate panics on purpose");
+        false
+    };
     match algo % 9 {
         6 => {
             let mut it = Dijkstra::new(g, src());
-            if consumer % 6 == 5 {
-                (0..steps).map(|_| it.next().map_or(0, |v| v as u64 + 1)).sum()
-            } else {
-                eat(it)
+            match consumer % 9 {
+                6 | 7 => via_clone(it, consumer),
+                5 => (0..steps).map(|_| it.next().map_or(0, |v| v as u64 + 1)).sum(),
+                _ => eat(it),
             }
         }
         7 => {
             let mut it = DijkstraDist::new(g, src());
-            match consumer % 6 {
+            match consumer % 9 {
+                6 | 7 => via_clone(it, consumer),
                 1 => eat(it.distances().into_iter()),
                 5 => (0..steps).map(|_| it.next().map_or(0, |v| v.0 as u64 + 1)).sum(),
                 _ => eat(it),
@@ -400,7 +438,9 @@ fn dijkstra(g: &AdjacencyListWeighted<usize>, algo: u8, sources: &[usize], consu
         }
         _ => {
             let mut it = DijkstraPred::new(g, src());
-            match consumer % 6 {
+            match consumer % 9 {
+                6 | 7 => via_clone(it, consumer),
+                8 => eat(it.shortest_path(boom).into_iter()),
                 2 => eat(it.predecessors().into_iter()),
                 3 => eat(it.shortest_path(is_t).into_iter()),
                 5 => (0..steps).map(|_| it.next().map_or(0, |v| v.1 as u64 + 1)).sum(),
@@ -650,6 +690,20 @@ pub fn exec(d: &mut AnyD, call: &Call) -> u64 {
                 0
             }
         }
+        Call::FilterPanic(keep, at) => {
+            if let AnyD::M(g) = d {
+                let calls = std::cell::Cell::new(0_usize);
+                eat(g
+                    .filter_vertices(|v| {
+                        calls.set(calls.get() + 1);
+                        assert!(calls.get() != *at + 1, "vertex predicate panics on purpose");
+                        keep.contains(&v)
+                    })
+                    .arcs())
+            } else {
+                0
+            }
+        }
         Call::Convert(to) => {
             let r = unweighted!(d, g => {
                 let g = g.clone();
@@ -760,7 +814,17 @@ pub fn exec(d: &mut AnyD, call: &Call) -> u64 {
         }
         Call::PredTree(p, s, t, mode) => {
             let tree = PredecessorTree::from(p.clone());
-            match mode % 4 {
+            match mode % 5 {
+                4 => {
+                    // a predicate that panics at its (t % 4 + 1)-th invocation
+                    let calls = std::cell::Cell::new(0_usize);
+                    tree.search_by(*s, |_, _| {
+                        calls.set(calls.get() + 1);
+                        assert!(calls.get() != *t % 4 + 1, "search predicate panics on purpose");
+                        false
+                    })
+                    .map_or(0, |x| x.len() as u64)
+                }
                 0 => tree.search(*s, *t).map_or(0, |x| x.len() as u64),
                 1 => tree.search_by(*s, |v, _| *v == *t).map_or(0, |x| x.len() as u64),
                 2 => tree.search_by(*s, |_, p| p.is_none()).map_or(0, |x| x.len() as u64),
